@@ -66,7 +66,7 @@ theorem isSubtypeCls_sound (env : Env) (hw : WfEnv env) (c : ClsId) (a : Ann) :
 theorem typeOfNode_true {env : Env} (hw : WfEnv env) {pc : Bool} {sp0 : Spell} {a : Ann} {v : Val} (hwf : v.wf env = true)
     (h : typeOfNode env pc sp0 a v = .ok true) : ∃ c, v = .clsObj c ∧ subSpec env c a = true := by
   unfold typeOfNode at h
-  simp only [cfg_genericChecksOrigin, cfg_origin_type, Bool.true_and, Bool.not_true, Bool.false_eq_true, ↓reduceIte] at h
+  simp only [cfg_req_type, cfg_req_Type, cfg_genericChecksOrigin, cfg_origin_type, Bool.true_and, Bool.not_true, Bool.false_eq_true, ↓reduceIte] at h
   split at h; · simp at h
   split at h; · simp at h
   split at h; · simp at h
@@ -165,11 +165,7 @@ theorem bareNode_ne_true (env : Env) (o : BareOrigin) (v : Val) : bareNode env o
   · simp only [cfg_req_bare_builtin o hb, hb, cfg_bare o hb, Bool.not_true, Bool.false_eq_true, ↓reduceIte]
     split <;> simp
   · have hb' : o.isBuiltin = false := by simpa using hb
-    by_cases ht : o = .tType
-    · subst ht
-      simp only [cfg_req_tType, BareOrigin.isBuiltin, Bool.not_true, Bool.false_eq_true, ↓reduceIte]
-      split <;> simp
-    · simp [cfg_req_bare o hb' ht]
+    simp [cfg_req_bare o hb']
 
 theorem tupleItems_plain_wf {env : Env} {v : Val} {xs : List Val} (hwf : v.wf env = true) (hp : v.plain = true)
     (hi : v.tupleItems = some xs) : wfL env xs = true ∧ plainL xs = true := by
